@@ -334,7 +334,32 @@ def run(ctx):
         ok = norm(c.args[0]) == "self.id" and kws == {"outcome": "outcome", "details": "self.details", "tags": "self.tags", "timestamps": "self.timestamps"} and any(
             isinstance(n, ast.Assign) and dotted(n.targets[0]) == "outcome" and norm(n.value) == "_status_map[self.status]" for n in ast.walk(ttc))
     ctx.check("R-REPLAY-ORDER", "record -> PlaceHolder keeps id, mapped outcome, details, tags, timestamps", ttc, ok, "to_test_case drops or renames a field", construct=f"{REAL}:_TestRecord.to_test_case::fields")
-    ctx.assume("sinks do not reorder events; repr(ContentType) is re-parsed by _make_content_type (value property, not decided)")
+    # ------------------------------------------------------------------ mime parameters pass through the re-parse
+    from .common import module_function
+    mct = module_function(ctx, REAL, "_make_content_type")
+    ctx.analysed(mct)
+    pvar = None
+    for n in walk_shallow(mct, include_self=False):
+        if isinstance(n, ast.Assign) and isinstance(n.targets[0], ast.Tuple) and "params" in norm(n.value):
+            pvar = dotted(n.targets[0].elts[-1])
+        if isinstance(n, ast.Assign) and isinstance(n.targets[0], ast.Name) and ".params" in norm(n.value):
+            pvar = n.targets[0].id
+    rets = [r for r in walk_shallow(mct, include_self=False) if isinstance(r, ast.Return)]
+    ok = pvar is not None and len(rets) == 1 and isinstance(rets[0].value, ast.Call) and dotted(rets[0].value.func) == "ContentType" and len(rets[0].value.args) == 3 and dotted(rets[0].value.args[2]) == pvar
+    ctx.check("R-EVENT-FIELDS", "_make_content_type rebuilds the ContentType with all parsed parameters", mct, ok,
+              "the parameters parsed from the mime string are not all handed to ContentType", construct=f"{REAL}:_make_content_type::params-kept")
+    rewrites = []
+    for n in walk_shallow(mct, include_self=False):
+        if isinstance(n, (ast.Assign, ast.AugAssign, ast.Delete)):
+            for t in (n.targets if not isinstance(n, ast.AugAssign) else [n.target]):
+                if isinstance(t, ast.Subscript) and dotted(t.value) == pvar:
+                    rewrites.append((n, str_const(t.slice)))
+        if isinstance(n, ast.Call) and isinstance(n.func, ast.Attribute) and dotted(n.func.value) == pvar and n.func.attr in ("pop", "clear", "update", "popitem", "setdefault"):
+            rewrites.append((n, f".{n.func.attr}()"))
+    bad = [k for _, k in rewrites if k != "charset"]
+    ctx.check("R-EVENT-FIELDS", "the only parameter _make_content_type rewrites is the legacy 'charset' workaround", mct, not bad,
+              f"_make_content_type rewrites parameter(s) {bad}: a content type parameter would not survive the conversion unchanged", construct=f"{REAL}:_make_content_type::only-charset")
+    ctx.assume("sinks do not reorder events; the email parser's handling of the rendered MIME string is a value property and is not decided")
 
 
 def _ancestors(node, stop):
